@@ -60,7 +60,23 @@ def random_pair(rng, sid):
     return gen_merge.merge_scenario(sid, b, o, hb if b else "set", ho if o else "set", rng.choice(["opt", "key", "ini"]), rng.choice(["opt", "key", "ini"]))
 
 
+def valueless_pair(rng, sid):
+    """parsed objects in which some keys have no value at all (`k=`), the empty text or a quoted empty value: the override's
+    definition wins also when it is the empty one"""
+    cells = [(g, k) for g in (None, b"A", b"B") for k in (b"x", b"y", b"z")]
+
+    def lst():
+        l = [rng.choice(cells) for _ in range(rng.randint(1, 5))]
+        return sorted(l, key=lambda e: e[0] is not None) if not gen_merge.parseable(l) else l
+
+    def spell(l):
+        return [rng.choice([None, None, "null", "null", "empty", "quoted"]) for _ in l]
+    b, o = lst(), lst()
+    return gen_merge.merge_scenario(sid, b, o, "parse", "parse", spell_b=spell(b), spell_o=spell(o))
+
+
 def scenarios(tier, rng):
+    extra = [valueless_pair(rng, "v%d" % i) for i in range(600 if tier == "quick" else 15000)]
     if tier == "quick":
         out = list(pairs(2))
         out += list(pairs(3, rng, 0.02))
@@ -69,7 +85,7 @@ def scenarios(tier, rng):
         out = list(pairs(3))
         out += list(pairs(4, rng, 0.01))
         out += [random_pair(rng, "r%d" % i) for i in range(5000)]
-    return out
+    return out + extra
 
 
 def g_of(e):
@@ -170,4 +186,9 @@ def histogram(s, lines):
         keys.append("over_has_duplicates")
     if len(set(b)) != len(b):
         keys.append("base_has_duplicates")
+    sp = s.meta.get("spell") or (None, None)
+    for side, spl in zip(("base", "over"), sp):
+        for x in set(spl or []):
+            if x:
+                keys.append("%s_value_%s" % (side, x))
     return keys
